@@ -265,6 +265,7 @@ func (s *Server) followStep(host string, port int, followc int) error {
 	}
 
 	// verify checksum
+	verifPoint("follow.beforeChecksum")
 	pos, err := s.followCheckSome(addr, followc, auth)
 	if err != nil {
 		return err
@@ -317,6 +318,7 @@ func (s *Server) followStep(host string, port int, followc int) error {
 	if s.opts.ShowDebugMessages {
 		log.Debug("follow:", addr, ":read aof")
 	}
+	verifPoint("follow.afterAofOk")
 
 	aofSize, err := strconv.ParseInt(m["aof_size"], 10, 64)
 	if err != nil {
